@@ -807,16 +807,52 @@ func (s *c10side) markCC() {
 }
 
 // structRootIsDecode: the struct a field is read from is the decoder's result.
-func (s *c10side) rootIsDecode(root ssa.Value) bool {
+func (s *c10side) rootIsDecode(root ssa.Value) bool { return s.c10rootIsDecodeD(root, 0) }
+
+// c10rootIsDecodeD also follows the decoded struct into an extracted helper: a
+// parameter (struct by value, possibly spilled to a local, or a pointer to the
+// local holding the result) of a non-escaping helper is the decoder's result
+// when every call site passes the decoder's result.
+func (s *c10side) c10rootIsDecodeD(root ssa.Value, depth int) bool {
+	if depth > 3 {
+		return false
+	}
+	root = resolve(root)
 	switch r := root.(type) {
 	case *ssa.Call:
 		return staticCallee(r) == s.decode
+	case *ssa.Extract:
+		if call, ok := r.Tuple.(*ssa.Call); ok {
+			return staticCallee(call) == s.decode
+		}
 	case *ssa.Alloc:
 		if v := singleStore(r); v != nil {
-			if call, ok := v.(*ssa.Call); ok {
-				return staticCallee(call) == s.decode
+			return s.c10rootIsDecodeD(v, depth+1)
+		}
+	case *ssa.UnOp:
+		if r.Op == token.MUL {
+			return s.c10rootIsDecodeD(r.X, depth+1)
+		}
+	case *ssa.Parameter:
+		fn := r.Parent()
+		if fn == nil || fn == s.top || s.escaped[fn] || len(s.callers[fn]) == 0 {
+			return false
+		}
+		idx := -1
+		for i, pr := range fn.Params {
+			if pr == r {
+				idx = i
 			}
 		}
+		if idx < 0 {
+			return false
+		}
+		for _, call := range s.callers[fn] {
+			if idx >= len(call.Call.Args) || !s.c10rootIsDecodeD(call.Call.Args[idx], depth+1) {
+				return false
+			}
+		}
+		return true
 	}
 	return false
 }
